@@ -40,4 +40,7 @@ def pyRange (start stop : Nat) : List Nat := List.range' start (stop - start)
 /-- `torch.cumsum(x, 0)` -/
 def cumsum (xs : List Nat) : List Nat := LK.ArrowOps.cumsum xs
 
+/-- a floating-point division whose `0/0` (`NaN`) is "no score" -/
+def divQ (num den : Q) : Option Q := if den = 0 then none else some (num / den)
+
 end LK.TorchOps
